@@ -600,8 +600,11 @@ def run(rep):
     import c07
     panic.LOCKSTEP_PAIR_IDS = {(r[1], r[0]) for r in c07.lockstep_roles(F).values()}
     panic.LOCKSTEP_OK = L.ok["L-LOCKSTEP"]
-    run_panic(rep, F, ["OPT", "MATCH", "VALIDATE"], floor=68, extra_rules=make_rules(F, L))
+    run_panic(rep, F, ["OPT", "MATCH", "VALIDATE"], floor=50, extra_rules=make_rules(F, L))
     rep.extra["lemmas"] = dict(L.ok)
+    if rep.tier == "thorough":
+        import poscontrol
+        poscontrol.panics(rep)
     rep.floor("L-IDENT", 10)
     rep.floor("L-SHAPE", 20)
     rep.floor("L-MATRIX", 25)
